@@ -670,6 +670,247 @@ Section Writer.
       rewrite repeat_app. reflexivity. }
     specialize (HR []). cbn beta in HR. cbn [app] in HR. rewrite !app_nil_r in HR. rewrite <- HR. reflexivity.
   Qed.
+
+  (* ---------------------------------------------------------------- arbitrary schedules (C34) *)
+  (** [consumed s u t]: transport [t] was reached from schedule [s] / call count
+      [u] by delivering only fault-free events *)
+  Definition consumed (s : list ev) (u : N) (t : tr) : Prop :=
+    exists p, s = p ++ sched t /\ no_fault p /\ used t = u + len p.
+
+  Lemma consumed_refl s w u : consumed s u (mk_tr s w u).
+  Proof. exists []. split; [reflexivity|]. split; [constructor|]. cbn [used]. rewrite len_nil. lia. Qed.
+
+  Lemma consumed_trans s u t1 t2 : consumed s u t1 -> consumed (sched t1) (used t1) t2 -> consumed s u t2.
+  Proof.
+    intros (p & -> & Hp & Hu) (q & Hq & Hqf & Hu2). exists (p ++ q). rewrite Hq, <- app_assoc.
+    split; [reflexivity|]. split.
+    - unfold no_fault in *. apply Forall_app. auto.
+    - rewrite Hu2, Hu, len_app. lia.
+  Qed.
+
+  Lemma consumed_step e s u t : (e <> Fail /\ e <> Rdy 0) -> consumed s (u + 1) t -> consumed (e :: s) u t.
+  Proof.
+    intros He (p & -> & Hp & Hu). exists (e :: p). cbn [app]. split; [reflexivity|]. split.
+    - constructor; assumption.
+    - rewrite Hu, len_cons. lia.
+  Qed.
+
+  Lemma wall_gen s : forall w u data,
+    match wall s w u data with
+    | (Ok _, t) => wire t = w ++ data /\ consumed s u t
+    | (Err _, _) => True
+    | (Panic _, _) => False
+    end.
+  Proof.
+    induction s as [|e s IH]; intros w u data.
+    - destruct data; cbn [wall wire]; (split; [rewrite ?app_nil_r; reflexivity|apply consumed_refl]).
+    - destruct data as [|x d].
+      + cbn [wall wire]. split; [rewrite app_nil_r; reflexivity|apply consumed_refl].
+      + destruct e as [n| |]; cbn [wall].
+        * set (k := N.min n (len (x :: d))).
+          destruct (k =? 0) eqn:E; [exact I|].
+          specialize (IH (w ++ take k (x :: d)) (u + 1) (drop k (x :: d))).
+          destruct (wall s (w ++ take k (x :: d)) (u + 1) (drop k (x :: d))) as [[[]|e'|p'] t]; try assumption.
+          destruct IH as (Hw & Hc). split.
+          -- rewrite Hw, <- app_assoc, take_drop. reflexivity.
+          -- apply consumed_step; [|exact Hc]. split; [discriminate|]. intros Hn. injection Hn as ->. unfold k in E. lia.
+        * specialize (IH w (u + 1) (x :: d)).
+          destruct (wall s w (u + 1) (x :: d)) as [[[]|e'|p'] t]; try assumption.
+          destruct IH as (Hw & Hc). split; [exact Hw|].
+          apply consumed_step; [split; discriminate|exact Hc].
+        * exact I.
+  Qed.
+
+  Definition wstate_post (s : list ev) (u : N) (w : bytes) (pend0 data remaining : bytes) (b' : bytes) (t' : tr) : Prop :=
+    exists h' pend', b' = h' ++ pend' /\ hdr_ok ctx h' /\ len pend' <= cap /\ consumed s u t'
+      /\ forall rest, w ++ frags (pend0 ++ data ++ rest) = wire t' ++ frags (pend' ++ remaining ++ rest).
+
+  Lemma dispatch_gen h d s w u : hdr_ok ctx h -> len d <= cap ->
+    match dispatch (h ++ d) (mk_tr s w u) with
+    | (Ok _, h', t') => hdr_ok ctx h' /\ wire t' = w ++ enc_pdu ctx (d, false) /\ consumed s u t'
+    | (Err _, _, _) => True
+    | (Panic _, _, _) => False
+    end.
+  Proof.
+    intros Hh Hd. unfold dispatch, write_all_tr. cbn [sched wire used].
+    rewrite (setup_header_enc ctx h d false Hh) by (unfold cap in *; lia).
+    pose proof (wall_gen s w u (enc_pdu ctx (d, false))) as H.
+    destruct (wall s w u (enc_pdu ctx (d, false))) as [[[]|e'|p'] t]; try assumption.
+    destruct H as (Hw & Hc). split; [apply firstn12_enc|]. split; assumption.
+  Qed.
+
+  Lemma pw_write_gen h pend s w u buf : hdr_ok ctx h -> len pend <= cap -> buf <> [] ->
+    match pw_write max (h ++ pend) (mk_tr s w u) buf with
+    | (Ok n, b', t') => 0 < n <= len buf /\ wstate_post s u w pend buf (drop n buf) b' t'
+    | (Err _, _, _) => True
+    | (Panic _, _, _) => False
+    end.
+  Proof.
+    intros Hh Hp Hb. pose proof (hdr_ok_len _ _ Hh) as Hl.
+    assert (0 < len buf) as Hbl by (destruct buf; [congruence|rewrite len_cons; lia]).
+    unfold pw_write. rewrite len_app, Hl. unfold total, HDR.
+    destruct (12 + len pend + len buf <=? max + 6) eqn:E1.
+    { split; [lia|]. exists h, (pend ++ buf). rewrite <- app_assoc.
+      split; [reflexivity|]. split; [assumption|]. split; [rewrite len_app; unfold cap; lia|].
+      split; [apply consumed_refl|].
+      intros rest. cbn [wire]. rewrite drop_all by lia. rewrite <- app_assoc. reflexivity. }
+    destruct ((12 + len pend =? max + 6) && (12 <? max + 6)) eqn:E2.
+    { assert (len pend = cap) as Hfull by (unfold cap; lia).
+      pose proof (dispatch_gen h pend s w u Hh Hp) as Hd.
+      destruct (dispatch (h ++ pend) (mk_tr s w u)) as [[[[]|e1|p1] h1] t1]; try assumption.
+      destruct Hd as (Hh1 & Hw1 & Hc1). pose proof (hdr_ok_len _ _ Hh1) as Hl1. rewrite Hl1.
+      assert (forall rest, frags (pend ++ buf ++ rest) = enc_pdu ctx (pend, false) ++ frags (buf ++ rest)) as Hres.
+      { intros rest. rewrite frags_big by (rewrite !len_app; lia).
+        rewrite <- Hfull, take_len_app, drop_len_app. reflexivity. }
+      destruct (12 + len buf <=? max + 6) eqn:E3.
+      - split; [lia|]. exists h1, buf.
+        split; [reflexivity|]. split; [assumption|]. split; [unfold cap; lia|]. split; [assumption|].
+        intros rest. rewrite drop_all by lia. rewrite Hres, Hw1, <- app_assoc. reflexivity.
+      - unfold write_fill. rewrite Hl1. unfold total.
+        destruct (max + 6 <? 12) eqn:E4; [lia|].
+        replace (max + 6 - 12) with cap by (unfold cap; lia).
+        destruct t1 as [s1 w1 u1]. cbn [wire sched used] in *.
+        pose proof (dispatch_gen h1 (take cap buf) s1 w1 u1 Hh1) as Hd2.
+        destruct (dispatch (h1 ++ take cap buf) (mk_tr s1 w1 u1)) as [[[[]|e2|p2] h2] t2]; try (apply Hd2; rewrite len_take; lia).
+        destruct Hd2 as (Hh2 & Hw2 & Hc2); [rewrite len_take; lia|].
+        split; [lia|]. exists h2, []. rewrite app_nil_r.
+        split; [reflexivity|]. split; [assumption|]. split; [rewrite len_nil; lia|].
+        split; [eapply consumed_trans; [exact Hc1|exact Hc2]|].
+        intros rest. rewrite Hres. rewrite frags_big by (rewrite len_app; lia).
+        rewrite take_app_l, drop_app_l by lia. rewrite Hw2, Hw1. cbn [app]. rewrite <- !app_assoc. reflexivity. }
+    unfold write_fill. rewrite len_app, Hl. unfold total.
+    destruct (max + 6 <? 12 + len pend) eqn:E4; [unfold cap in Hp; lia|].
+    set (n := max + 6 - (12 + len pend)).
+    assert (0 < n /\ n = cap - len pend /\ n < len buf) as (Hn0 & Hn & Hnb) by (unfold n, cap in *; lia).
+    rewrite <- app_assoc.
+    pose proof (dispatch_gen h (pend ++ take n buf) s w u Hh) as Hd.
+    destruct (dispatch (h ++ pend ++ take n buf) (mk_tr s w u)) as [[[[]|e2|p2] h2] t2]; try (apply Hd; rewrite len_app, len_take; lia).
+    destruct Hd as (Hh2 & Hw2 & Hc2); [rewrite len_app, len_take; lia|].
+    split; [lia|]. exists h2, []. rewrite app_nil_r.
+    split; [reflexivity|]. split; [assumption|]. split; [rewrite len_nil; lia|]. split; [assumption|].
+    intros rest. rewrite frags_big by (rewrite !len_app; lia).
+    rewrite take_app_r, drop_app_r by lia.
+    replace (cap - len pend) with n by lia.
+    rewrite take_app_l, drop_app_l by lia. rewrite Hw2. cbn [app]. rewrite <- app_assoc. reflexivity.
+  Qed.
+
+  Lemma pw_write_all_gen : forall fuel data h pend s w u,
+    (length data <= fuel)%nat -> hdr_ok ctx h -> len pend <= cap ->
+    match pw_write_all fuel max (h ++ pend) (mk_tr s w u) data with
+    | (Ok _, b', t') => wstate_post s u w pend data [] b' t'
+    | (Err _, _, _) => True
+    | (Panic _, _, _) => False
+    end.
+  Proof.
+    induction fuel as [|fuel IH]; intros data h pend s w u Hf Hh Hp.
+    - destruct data; [|cbn in Hf; lia]. cbn [pw_write_all]. exists h, pend.
+      split; [reflexivity|]. split; [assumption|]. split; [assumption|]. split; [apply consumed_refl|]. reflexivity.
+    - destruct data as [|x data].
+      + cbn [pw_write_all]. exists h, pend.
+        split; [reflexivity|]. split; [assumption|]. split; [assumption|]. split; [apply consumed_refl|]. reflexivity.
+      + cbn [pw_write_all].
+        pose proof (pw_write_gen h pend s w u (x :: data) Hh Hp) as Hw.
+        destruct (pw_write max (h ++ pend) (mk_tr s w u) (x :: data)) as [[[n|e1|p1] b1] t1]; try (apply Hw; discriminate).
+        destruct Hw as (Hn & h1 & pend1 & -> & Hh1 & Hp1 & Hc1 & Hres1); [discriminate|].
+        destruct (n =? 0) eqn:E; [lia|].
+        destruct t1 as [s1 w1 u1].
+        assert (length (drop n (x :: data)) <= fuel)%nat as Hlen
+          by (unfold drop; rewrite skipn_length; cbn [length] in *; lia).
+        specialize (IH (drop n (x :: data)) h1 pend1 s1 w1 u1 Hlen Hh1 Hp1).
+        destruct (pw_write_all fuel max (h1 ++ pend1) (mk_tr s1 w1 u1) (drop n (x :: data))) as [[[[]|e2|p2] b2] t2];
+          try assumption.
+        destruct IH as (h2 & pend2 & -> & Hh2 & Hp2 & Hc2 & Hres2).
+        exists h2, pend2.
+        split; [reflexivity|]. split; [assumption|]. split; [assumption|].
+        split; [eapply consumed_trans; [exact Hc1|exact Hc2]|].
+        intros rest. cbn [wire] in *. rewrite <- Hres2. apply Hres1.
+  Qed.
+
+  Definition is_err {A} (o : outcome A) : Prop := match o with Err _ => True | _ => False end.
+
+  Lemma sync_ops_gen : forall chunks h pend s w u,
+    hdr_ok ctx h -> len pend <= cap ->
+    match sync_ops max (h ++ pend) (mk_tr s w u) (map OpWrite chunks) with
+    | (rs, true, b', t') => rs = all_ok (length chunks) /\ wstate_post s u w pend (concat chunks) [] b' t'
+    | (rs, false, _, _) => exists k e, rs = all_ok k ++ [Err e]
+    end.
+  Proof.
+    induction chunks as [|c chunks IH]; intros h pend s w u Hh Hp.
+    - cbn [map sync_ops]. split; [reflexivity|]. exists h, pend. repeat split; try assumption. apply consumed_refl.
+    - cbn [map sync_ops].
+      pose proof (pw_write_all_gen (length c) c h pend s w u (le_n _) Hh Hp) as Hw.
+      destruct (pw_write_all (length c) max (h ++ pend) (mk_tr s w u) c) as [[[[]|e1|p1] b1] t1]; try contradiction.
+      + destruct Hw as (h1 & pend1 & -> & Hh1 & Hp1 & Hc1 & Hres1). cbn [is_okb].
+        destruct t1 as [s1 w1 u1]. specialize (IH h1 pend1 s1 w1 u1 Hh1 Hp1).
+        destruct (sync_ops max (h1 ++ pend1) (mk_tr s1 w1 u1) (map OpWrite chunks)) as [[[rs ok] b2] t2].
+        destruct ok.
+        * destruct IH as (-> & h2 & pend2 & -> & Hh2 & Hp2 & Hc2 & Hres2). split; [reflexivity|].
+          exists h2, pend2. repeat split; try assumption.
+          -- eapply consumed_trans; [exact Hc1|exact Hc2].
+          -- intros rest. cbn [concat wire] in *. rewrite <- Hres2. rewrite <- app_assoc. apply Hres1.
+        * destruct IH as (k & e & ->). exists (S k), e. reflexivity.
+      + cbn [is_okb]. exists O, e1. reflexivity.
+  Qed.
+
+  Lemma finish_gen h pend s w u : hdr_ok ctx h -> len pend <= cap ->
+    match finish_impl (h ++ pend) (mk_tr s w u) with
+    | (Ok _, b', t') => b' = [] /\ wire t' = w ++ frags pend /\ consumed s u t'
+    | (Err _, _, _) => True
+    | (Panic _, _, _) => False
+    end.
+  Proof.
+    intros Hh Hp. unfold finish_impl.
+    destruct (h ++ pend) eqn:E.
+    { apply (f_equal len) in E. rewrite len_app, (hdr_ok_len _ _ Hh), len_nil in E. lia. }
+    rewrite <- E. rewrite (setup_header_enc ctx h pend true Hh) by (unfold cap in *; lia).
+    unfold write_all_tr. cbn [sched wire used].
+    pose proof (wall_gen s w u (enc_pdu ctx (pend, true))) as H.
+    destruct (wall s w u (enc_pdu ctx (pend, true))) as [[[]|e'|p'] t]; try assumption.
+    destruct H as (Hw & Hc). rewrite frags_small by exact Hp. auto.
+  Qed.
+
+  (** the sync writer over ANY schedule: no panic; if every operation reported
+      Ok then the wire holds the complete message and no fault event was
+      delivered (the delivered events are exactly a fault-free prefix) *)
+  Theorem run_sync_gen chunks s rs wr u :
+    run_sync ctx max (map OpWrite chunks) s true = (rs, wr, u) ->
+    Forall (fun r => is_panic r = false) rs /\
+    (Forall (fun r => is_okb r = true) rs ->
+       rs = all_ok (S (length chunks)) /\ wr = enc_all ctx (fragments cap (concat chunks))
+       /\ exists p rest, s = p ++ rest /\ no_fault p /\ u = len p).
+  Proof.
+    unfold run_sync.
+    replace (initial_buffer ctx) with (initial_buffer ctx ++ []) by apply app_nil_r.
+    pose proof (sync_ops_gen chunks (initial_buffer ctx) [] s [] 0 (initial_hdr_ok ctx)) as H.
+    destruct (sync_ops max (initial_buffer ctx ++ []) (mk_tr s [] 0) (map OpWrite chunks)) as [[[rs1 ok] b1] t1].
+    destruct ok.
+    - destruct H as (-> & h1 & p1 & -> & Hh1 & Hp1 & Hc1 & Hres1); [rewrite len_nil; lia|].
+      cbn [andb]. destruct t1 as [s1 w1 u1].
+      pose proof (finish_gen h1 p1 s1 w1 u1 Hh1 Hp1) as Hf.
+      destruct (finish_impl (h1 ++ p1) (mk_tr s1 w1 u1)) as [[[[]|e2|p2] b2] t2]; try contradiction.
+      + destruct Hf as (-> & Hw2 & Hc2). cbn [finish_impl wire used].
+        intros E. injection E as <- <- <-.
+        assert (all_ok (length chunks) ++ [Ok tt] = all_ok (S (length chunks))) as Hall.
+        { unfold all_ok. replace (S (length chunks)) with (length chunks + 1)%nat by lia.
+          rewrite repeat_app. reflexivity. }
+        rewrite Hall. split.
+        * unfold all_ok. apply Forall_forall. intros r Hr. apply repeat_spec in Hr. subst r. reflexivity.
+        * intros _. split; [reflexivity|]. split.
+          -- rewrite Hw2. specialize (Hres1 []). cbn [wire app] in Hres1. rewrite !app_nil_r in Hres1. symmetry. exact Hres1.
+          -- destruct (consumed_trans _ _ _ _ Hc1 Hc2) as (p & Hs & Hp & Hu).
+             exists p, (sched t2). repeat split; try assumption; rewrite Hu; lia.
+      + intros E. set (fin2 := finish_impl b2 t2) in E. destruct fin2 as [[r3 b3] t3].
+        injection E as <- _ _. split.
+        * apply Forall_app. split; [|repeat constructor].
+          unfold all_ok. apply Forall_forall. intros r Hr. apply repeat_spec in Hr. subst r. reflexivity.
+        * intros Hall. apply Forall_app in Hall. destruct Hall as (_ & Hall). inversion Hall as [|? ? Hbad]. discriminate Hbad.
+    - destruct H as (k & e & ->); [rewrite len_nil; lia|]. cbn [andb].
+      intros E. set (fin2 := finish_impl b1 t1) in E. destruct fin2 as [[r3 b3] t3].
+      injection E as <- _ _. rewrite app_nil_r. split.
+      + apply Forall_app. split; [|repeat constructor].
+        unfold all_ok. apply Forall_forall. intros r Hr. apply repeat_spec in Hr. subst r. reflexivity.
+      + intros Hall. apply Forall_app in Hall. destruct Hall as (_ & Hall). inversion Hall as [|? ? Hbad]. discriminate Hbad.
+  Qed.
 End Writer.
 
 (* ------------------------------------------------------------------ properties of the fragmentation *)
